@@ -68,10 +68,11 @@ def nontrivial(res):
     return (p.get("query_after_edit", 0) > 0) or (p.get("verify_after_sign", 0) > 0) or (p.get("transmissions", 0) > 0) or (p.get("refsigned", 0) > 0)
 
 
-def priv(k):
-    if k not in _PRIV:
-        _PRIV[k] = PrivateKey(SECRETS[k])
-    return _PRIV[k]
+def priv(k, unc=False):
+    """library private key of pool key k; unc: the holder uses the uncompressed SEC form of the public key (legacy outputs only)"""
+    if (k, unc) not in _PRIV:
+        _PRIV[(k, unc)] = PrivateKey(SECRETS[k], compressed=not unc)
+    return _PRIV[(k, unc)]
 
 
 def pub(k):
@@ -102,7 +103,9 @@ class Inp:
         self.annex = bytes.fromhex(spec["annex"]) if spec.get("annex") else None
         self.signed = None  # dict describing what was signed
         k = self.kind
-        pks = [secp.sec(pub(x)) for x in self.keys]
+        # uncompressed public keys: legal in legacy outputs only (BIP143 policy forbids them in witness programs)
+        self.unc = bool(spec.get("unc")) and k in ("p2pkh", "p2sh_ms")
+        pks = self.pks()
         self.redeem = None
         self.wscript = None
         self.leaf_script = None
@@ -145,6 +148,9 @@ class Inp:
         else:
             raise ValueError(k)
         self.spk_at_creation = self.spk
+
+    def pks(self):
+        return [secp.sec(pub(x), compressed=not self.unc) for x in self.keys]
 
     def script_code(self):
         k = self.kind
@@ -224,7 +230,7 @@ class World:
     def dress(self, ti, inp):
         """Put the input in the shape it has at verification time, with placeholder signatures, using the library's finalisers."""
         k = inp.kind
-        pks = [secp.sec(pub(x)) for x in inp.keys]
+        pks = inp.pks()
         if k == "p2pkh":
             ti.finalize_p2pkh(DUMMY_DER, pks[0])
         elif k == "p2wpkh":
@@ -572,7 +578,7 @@ class World:
             return
         try:
             if k == "p2pkh":
-                ok = tx.sign_input(idx, priv(inp.keys[0])) if st.get("via_sign_input") else tx.sign_p2pkh(idx, priv(inp.keys[0]))
+                ok = tx.sign_input(idx, priv(inp.keys[0], inp.unc)) if st.get("via_sign_input") else tx.sign_p2pkh(idx, priv(inp.keys[0], inp.unc))
             elif k == "p2wpkh":
                 ok = tx.sign_input(idx, priv(inp.keys[0])) if st.get("via_sign_input") else tx.sign_p2wpkh(idx, priv(inp.keys[0]))
             elif k == "p2sh_p2wpkh":
@@ -653,7 +659,7 @@ class World:
         pos = 1 if k in ("p2wsh_ms", "p2sh_p2wsh_ms") else 0
         inp.signed = {"digest": d, "ht": ht, "spk": inp.spk, "annex": inp.annex, "tampered": False, "item0": (w[pos] if len(w) > pos else None)}
         tr.ev("tx", "sign", f"{idx}|{k}|{ht:#x}|{bool(ok)}")
-        tr.probe("signed_" + k + ("_annex" if inp.annex is not None else ""))
+        tr.probe("signed_" + k + ("_annex" if inp.annex is not None else "") + ("_uncompressed_keys" if inp.unc else ""))
         tr.oracle("H4")
         if d is None:
             # specification has no message (taproot SINGLE without output): a successful signature is a violation of C05, a refusal is fine
@@ -704,7 +710,7 @@ class World:
             pks = [secp.sec(pub(x)) for x in inp.keys]
             good = len(sigs) == inp.m and all(any(ecdsa_ok(s, pk) for pk in pks) for s in sigs)
         elif k == "p2sh_ms":
-            pks = [secp.sec(pub(x)) for x in inp.keys]
+            pks = inp.pks()
             # scriptSig: OP_0 <sig>... <redeem>
             ss = mi["script_sig"]
             p = 1
@@ -830,7 +836,7 @@ class World:
                     ht = types[0]
                     d = self.ref_digest(idx, algo, ht)
                     sig = der_sig(SECRETS[inp.keys[0]], d, ht)
-                    pk = secp.sec(pub(inp.keys[0]))
+                    pk = inp.pks()[0]
                     if k == "p2pkh":
                         ti.finalize_p2pkh(sig, pk)
                     elif k == "p2wpkh":
@@ -1328,6 +1334,8 @@ def gen_input(ch, kinds=None):
             spec["internal"] = ch.randrange(8)
     else:
         spec["keys"] = [ch.randrange(8)]
+    if k in ("p2pkh", "p2sh_ms") and ch.chance(0.25):
+        spec["unc"] = True
     if k in ("p2tr_key", "p2tr_script") and ch.chance(0.3):
         spec["annex"] = (b"\x50" + ch.bytes(ch.randrange(0, 40))).hex()
     return spec
@@ -1487,6 +1495,8 @@ def enumerate_c05(tier, seed):
                     spec["internal"] = r.randrange(8)
             if kind in ("p2tr_key", "p2tr_script") and r.random() < 0.4:
                 spec["annex"] = "50" + "%02x" % r.randrange(256)
+            if kind in ("p2pkh", "p2sh_ms") and sum(hts) % 3 == 0:
+                spec["unc"] = True
             other = {"kind": "p2wpkh", "txid": "%064x" % r.getrandbits(256), "vout": 0, "sequence": 0xFFFFFFFF, "amount": 5000, "keys": [r.randrange(8)]}
             yield {"version": 2, "locktime": 0, "inputs": [spec, other], "outputs": [{"amount": 90000, "spk": tm.spk_p2wpkh(bytes(20)).hex()}, {"amount": 5000, "spk": tm.spk_p2pkh(bytes(20)).hex()}],
                    "steps": [{"op": "refsign", "i": 0, "hts": hts, "pick": r.randrange(1000)}], "enum": "refsign"}
@@ -1517,7 +1527,7 @@ def enumerate_plans(tier, prop, seed):
     r = plan_rng(seed, "enum-c06")
     reps = 1 if tier == "quick" else 6
     for kind in KINDS:
-        for tk in ["none"] + TAMPER_BY_KIND[kind]:
+        for tki, tk in enumerate(["none"] + TAMPER_BY_KIND[kind]):
             for rep in range(reps if tk != "sigfree_opcodes" else (8 if tier == "quick" else 48)):
                 n = 1 if kind in ("p2pkh", "p2wpkh", "p2sh_p2wpkh", "p2tr_key") else r.choice([2, 3])
                 spec = {"kind": kind, "txid": "%064x" % r.getrandbits(256), "vout": r.randrange(3), "sequence": 0xFFFFFFFE, "amount": 100000 + r.randrange(1000), "keys": r.sample(range(8), n)}
@@ -1530,6 +1540,8 @@ def enumerate_plans(tier, prop, seed):
                     spec["internal"] = r.randrange(8)
                 if kind in ("p2tr_key", "p2tr_script") and (rep % 2 == 1 or (tier == "quick" and r.random() < 0.3)):
                     spec["annex"] = "50" + "%02x" % r.randrange(256)
+                if kind in ("p2pkh", "p2sh_ms") and (tki + rep) % 3 == 2:
+                    spec["unc"] = True
                 t = {"op": "transmit", "i": 0}
                 if tk != "none":
                     t["mut"] = {"kind": "flip" if tk == "flip_ss" else tk, "a": (r.randrange(10000) if tk != "sigfree_opcodes" else rep * 3 + 1 + (rep % 2)), "b": (r.randrange(256) if tk != "sigfree_opcodes" else rep), "region": "ss" if tk == "flip_ss" else "w"}
